@@ -935,7 +935,7 @@ def op_write_ro(w, op, mods):
         else:
             obj = mods["recfile"].Recfile(w.epath(p), "r", dtype=m["dtype"], **({"delim": delim} if delim else {}))
     except Exception as e:
-        raise Skip("cannot open: %r" % (e,))
+        raise Skip("cannot open: %s" % type(e).__name__)      # (the text of the exception may quote bytes of the file)
     err = None
     before = w.raw(p)
     try:
@@ -1614,7 +1614,7 @@ def op_sparse(w, op, mods):
             os.unlink(path)
         except OSError:
             pass
-        raise Skip("no sparse file here: %r" % (e,))
+        raise Skip("no sparse file here: %s" % type(e).__name__)
     run.fault("binary_table_larger_than_2_GiB")
     feats = {"form": "raw", "text": False, "big": True}
     rf = None
